@@ -58,8 +58,8 @@ func TestDriveC08(t *testing.T) {
 			scfg.File = &configuration.FileSensorConfig{Path: valFile}
 		case "cmd":
 			script := filepath.Join(sub, "read.sh")
-			writeScript(script, fmt.Sprintf("m=$(cat %s 2>/dev/null)\ncase \"$m\" in\n fail) echo oops >&2; exit 3;;\n garbage) echo abc;;\n nan) echo nan;;\n inf) echo inf;;\n -inf) echo -inf;;\n empty) ;;\n sleep) sleep 3; cat %s;;\n *) cat %s;;\nesac\n",
-				filepath.Join(sub, "fault"), valFile, valFile))
+			writeScript(script, fmt.Sprintf("m=$(cat %s 2>/dev/null)\ncase \"$m\" in\n fail) echo oops >&2; exit 3;;\n failnum) echo 0; exit 3;;\n failnum2) cat %s; echo 'read error' >&2; exit 1;;\n garbage) echo abc;;\n digits) echo '503 Service Unavailable';;\n digits2) echo '2 sensors found, none responding';;\n unit) echo \"$(cat %s) mC\";;\n nan) echo nan;;\n inf) echo inf;;\n -inf) echo -inf;;\n empty) ;;\n sleep) sleep 3; cat %s;;\n *) cat %s;;\nesac\n",
+				filepath.Join(sub, "fault"), valFile, valFile, valFile, valFile))
 			scfg.Cmd = &configuration.CmdSensorConfig{Exec: script}
 		}
 		sensor, err = sensors.NewSensor(scfg)
@@ -82,7 +82,7 @@ func TestDriveC08(t *testing.T) {
 			if r.Intn(4) == 0 || (wantTimeout && k == length/2) {
 				switch kind {
 				case "hwmon", "file":
-					fault = []string{"missing", "empty", "garbage", "dir", "float"}[r.Intn(5)]
+					fault = []string{"missing", "empty", "garbage", "dir", "float", "words", "blank"}[r.Intn(7)]
 					switch fault {
 					case "missing":
 						os.Remove(valFile)
@@ -92,13 +92,17 @@ func TestDriveC08(t *testing.T) {
 						writeVal("12x\n")
 					case "float":
 						writeVal("45.5")
+					case "words":
+						writeVal("45000 mC\n")
+					case "blank":
+						writeVal(" \n")
 					case "dir":
 						os.Remove(valFile)
 						must(os.Mkdir(valFile, 0755))
 						restore = func() { os.Remove(valFile) }
 					}
 				case "cmd":
-					fault = []string{"fail", "garbage", "nan", "inf", "-inf", "empty"}[r.Intn(6)]
+					fault = []string{"fail", "garbage", "nan", "inf", "-inf", "empty", "failnum", "failnum2", "digits", "digits2", "unit"}[r.Intn(11)]
 					if wantTimeout && k == length/2 {
 						fault = "sleep"
 						timeouts--
